@@ -49,7 +49,17 @@ def cases(draw, tier):
         p_po = draw(st.sampled_from([0.0, 0.0, 0.02, 0.5, 0.98, 1.0]))
         p_other = draw(st.sampled_from([0.0, 0.0, 0.02, 0.5, 0.98, 1.0]))
         res = [(c.lower() if rnd.random() < (p_po if c in PONLY else p_other) else c) for c in res]
-        rnd.shuffle(res)
+        # layout: letters shuffled over the sequences, or the protein-only letters concentrated at the front / at the end
+        # (so that the first or the last records alone carry the decisive letters)
+        layout = draw(st.sampled_from(["shuffled", "shuffled", "po_first", "po_last"]))
+        if layout == "shuffled":
+            rnd.shuffle(res)
+        else:
+            po = [c for c in res if c.upper() in PONLY]
+            rest = [c for c in res if c.upper() not in PONLY]
+            rnd.shuffle(po)
+            rnd.shuffle(rest)
+            res = po + rest if layout == "po_first" else rest + po
     res = "".join(res)
     nseq = draw(st.integers(2, min(40, max(2, len(res)))))
     cuts = sorted(rnd.sample(range(1, len(res)), nseq - 1)) if len(res) > nseq else list(range(1, len(res)))
